@@ -55,6 +55,15 @@ Fixpoint define (n v : list Z) (T : table) : table :=
   | (n', v') :: T' => if starts n n' && starts n' n then (n', v) :: T' else (n', v') :: define n v T'
   end.
 
+(* the number of line breaks (LF, U+000A) of a text *)
+Definition line_breaks (s : list Z) : nat := count_occ Z.eq_dec s 10.
+
+(* what a definition leaves in the converted text: the text of the definition - from '~' to the closing
+   brace of the value, or to where the reading of a malformed one stops; blanks and /* */ comments between
+   its parts included - is removed, but its line breaks stay, so that every later line keeps its number
+   (the compiler reports line numbers of the CONVERTED text). Nothing else is written. *)
+Definition definition_residue (removed : list Z) : list Z := repeat 10 (line_breaks removed).
+
 (* reference rewriting of a text that contains no strings, comments or definitions *)
 Fixpoint rewrite (fuel : nat) (T : table) (s : list Z) : list Z :=
   match fuel with
